@@ -465,8 +465,20 @@ class CatalogWriter(AbstractContextManager, HandlesDataChunk):
     def __enter__(self) -> Self:
         return self
 
-    def __exit__(self, *args, **kwargs) -> None:
-        self.finalize()
+    def __exit__(self, exc_type=None, exc_value=None, traceback=None) -> None:
+        if exc_type is None:
+            self.finalize()
+        else:
+            self.abort()
+
+    def abort(self) -> None:
+        """Close all patch writers and remove the incomplete cache directory."""
+        for writer in self.writers.values():
+            try:
+                writer.close()
+            except Exception:
+                pass
+        rmtree(self.cache_directory, ignore_errors=True)
 
     @property
     def num_patches(self) -> int:
